@@ -956,6 +956,11 @@ func ruleKGUARD(w *World, r *Report, pres map[string]*asmPre) {
 						if strings.HasSuffix(valuePath(oth).Path, "."+fname) {
 							good = true
 						}
+						// or the builtin on the source slice itself: len(bs) for Len, cap(bs) for Cap
+						bn := strings.ToLower(fname)
+						if bc := isBuiltinCall(stripAllConv(oth), bn); bc != nil && len(fn.Params) > 0 && stripAllConv(resolveSingle(bc.Call.Args[0])) == ssa.Value(fn.Params[0]) {
+							good = true
+						}
 					}
 				}
 				key := fmt.Sprintf("%s:%s", spec.fn, fname)
